@@ -29,14 +29,34 @@ def tree_shape(ctx):
     def fact(name):
         m = re.search(r"def %s : List String := \[(.*?)\]" % name, txt, re.S)
         return re.findall(r'"([^"]*)"', m.group(1)) if m else []
+    def factx(name):     # kind stmtsx: rows (depth, kind, text)
+        m = re.search(r"def %s : List \(Nat × String × String\) := \[(.*?)\]\n" % name, txt, re.S)
+        return [(int(d), k, t) for d, k, t in re.findall(r'\((\d+), "([^"]*)", "((?:[^"\\]|\\.)*)"\)', m.group(1))] if m else []
+    # claim audit 2, item 24: the JOIN in IOLoop (`client.Close()` then `<-messagePumpDoneChan` before the return; the pump
+    # goroutine closes the channel after messagePump returned) and the BODY of GetTopic's guard (`t.Close()` under `if exiting`,
+    # flag read before the NSQD lock is released) — same lists as Tie.Restart.ioLoopJoinShape / getTopicExitShape
+    join_x = [(0, "assign", "messagePumpDoneChan := make(chan struct{})"),
+              (0, "go", "func() { p.messagePump(client, messagePumpStartedChan) close(messagePumpDoneChan) }()"),
+              (1, "expr", "p.messagePump(client, messagePumpStartedChan)"),
+              (1, "expr", "close(messagePumpDoneChan)"),
+              (0, "expr", "client.Close()"),
+              (0, "expr", "<-messagePumpDoneChan"),
+              (0, "return", "err")]
+    gettopic_x = [(1, "expr", "n.Unlock()"),
+                  (0, "assign", "exiting := atomic.LoadInt32(&n.isExiting) == 1"),
+                  (0, "expr", "n.Unlock()"),
+                  (0, "if", "exiting"),
+                  (1, "expr", "t.Close()")]
     shape = {"barrier": fact("topicExitHead")[:3] == ["Lock", "CompareAndSwapInt32", "Unlock"],
              "anslock": (fact("reqCalls")[:3] == ["RLock", "RUnlock", "popInFlightMessage"] or
                          fact("reqCalls")[:5] == ["RLock", "RUnlock", "RLock", "RUnlock", "popInFlightMessage"]) and
                         (fact("touchCalls")[:3] == ["RLock", "RUnlock", "popInFlightMessage"] or
                          fact("touchCalls")[:5] == ["RLock", "RUnlock", "RLock", "RUnlock", "popInFlightMessage"]),
-             "gettopicguard": fact("getTopicExitGuard") == ["assign exiting := atomic.LoadInt32(&n.isExiting) == 1", "if exiting"],
+             "gettopicguard": fact("getTopicExitGuard") == ["assign exiting := atomic.LoadInt32(&n.isExiting) == 1", "if exiting"] and
+                              factx("getTopicExitX") == gettopic_x,
              "pumpjoin": fact("tcpCloseCalls") == ["Range", "Wait"] and
-                         fact("ioLoopJoin") == ["assign messagePumpDoneChan := make(chan struct{})"]}
+                         fact("ioLoopJoin") == ["assign messagePumpDoneChan := make(chan struct{})"] and
+                         factx("ioLoopJoinX") == join_x}
     ctx.corr["race_model_of_tree"] = shape
     return shape
 
@@ -212,23 +232,26 @@ def run(ctx):
         "Go memory model: one critical section / channel operation = one micro-step (race model)",
         "correspondence harness harness/e5/{life,restart,replay}_test.go (white-box dumps; the harness plays the consumer "
         "pump on real clientV2 objects; Exit + New + LoadMetadata + PersistMetadata + Main on the same data path)",
-        "go-diskqueue v1.1.0 keeping exactly its FIFO content across Close/New (what Restart.lookupDQ assumes) is now "
-        "Props.E9DiskQueue.close_reopen_preserves / DQLaw.flush_then_restart over the model of its files, tied by the "
-        "engine E9 leg (Tie.DiskQueue + harness/e9 on the real package); Message.WriteTo/decodeMessage round-trip (C07)",
+        "go-diskqueue v1.1.0 keeping exactly its FIFO content across Close/New (what Restart.lookupDQ assumes) is "
+        "Props.E9DiskQueue.close_reopen_preserves / DQLaw.flush_then_restart over the model of its files (for --sync-every >= 1, "
+        "max-msg-size < 2^31 and unchanged record-size bounds across the restart), tied by the "
+        "engine E9 leg (Tie.DiskQueue + harness/e9 on the real package); NOT composed with restart_preserves in Lean - no theorem "
+        "instantiates Restart.lookupDQ with the DiskQueue model, the match is by inspection; Message.WriteTo/decodeMessage round-trip (C07)",
     ]
     ctx.assumptions += [
         "restart_preserves / restart_cycles: the shutdown is requested in a state with no pending continuation (atomic "
-        "model); names are unique (WF, proved for every reachable state: wf_reachable)",
+        "model); durable channels of durable topics only; names are unique (WF, proved for every reachable state: wf_reachable)",
         "scan_race_safe: the timeout scans hold exitMutex.RLock across 'out of the in-flight/deferred map … back on the "
         "queue' (tie scan_holds_exit_lock; replayed: exit_races_timeout_scan); persisted_ignores_exiting: GetMetadata does "
         "not consult exit flags (tie metadata_ignores_exit_flag; replayed: exit_races_pending_notify)",
         "C05_full_tree / C05_full_joined (THE theorem for the current tree; no hypothesis): the instance of the race model "
         "selected by the regenerated facts is joinedTree (ties topic_exit_flag_shape F17, answers_exit_lock_shape F18, "
-        "exit_joins_pumps_shape F23, get_topic_exit_shape F26 demand exactly the committed shapes; tree_model_known is an "
-        "equality). What remains assumed is the model itself: ONE durable topic with one durable channel, message contents "
+        "exit_joins_pumps_shape + io_loop_join_shape F23 (the join `client.Close(); <-messagePumpDoneChan` before IOLoop returns, "
+        "extractor stmtsx), get_topic_exit_shape + get_topic_exit_closes F26 (`t.Close()` under `if exiting`, stmtsx) demand exactly the "
+        "committed shapes; tree_model_known is an equality). What remains assumed is the model itself: ONE durable topic with one durable channel, memory queues of capacity 4, message contents "
         "abstracted, several topics interacting only through the NSQD lock (pubNewTopic)",
         "theorems about the UNREPAIRED shapes (not about this tree): C05_full_false / C05_full_fixed_false / "
-        "each_repair_needed (dropping any one of F17, F18, F23, F26 re-opens its window), C05_partial and C05_fixed_partial "
+        "each_repair_needed (dropping any one of F17, F18, F23, F26 re-opens its window: lostFrom = true on its witness), C05_partial and C05_fixed_partial "
         "(hypotheses: no publisher between the exitFlag test and its queue write, no pump holding an unregistered message, "
         "no REQ/TOUCH between pop and re-insertion; resp. lateReg = [] and lateTopic = []); all six witnesses are replayed "
         "on the real code on every run and a reproduction is a VIOLATION (the findings are recorded fixed)",
